@@ -201,8 +201,9 @@ def targeted_pairs2(rng, n):
 
 def index_family():
     out = []
-    # only string-keyed index signatures: the meaning of number-keyed ones (JS keys are strings) is not fixed by the property
-    for dom in (None,):
+    # key domains `string` and `string | number` (both = every key, since JS keys are strings); `number` alone is left out: which string
+    # keys count as numeric is not fixed by the property
+    for dom in (None, 'string+number'):
         for v in (STR, NUM, ('or', [STR, NUM]), lit(1)):
             out.append(obj({}, v, dom))
     return out
@@ -270,6 +271,8 @@ def features(t, env, acc=None, seen=None):
             acc.add('optional-prop')
         if t[2] is not None:
             acc.add('index-sig')
+            if idx_dom(t) != 'string':
+                acc.add('index-key-' + idx_dom(t))
             features(t[2], env, acc, seen)
         for ty, _ in t[1].values():
             features(ty, env, acc, seen)
@@ -438,6 +441,9 @@ def main(tier):
             nat = native_pair(src, names[i], names[j])
             if nat['dev'].get('sub') and nat['release'].get('sub'):
                 role = 'union-member-open-covers-witness' if sibling_open_cover(a, w, NAMED) else '+'.join(feats)
+                fa, fb = features(a, NAMED, set(), set()), features(b, NAMED, set(), set())
+                if 'index-key-string+number' in fa and 'index-sig' in fb and 'index-key-string+number' not in fb:
+                    role = 'index-key-domain-wider-than-target'
                 rep.violation('c05:accepts:' + role,
                               f'decided assignable, but {json.dumps(w)} is an exact value of the first type and not a value of the second: {desc}',
                               {'cmd': 'subtype', 'input': {'files': {'entry.ts': src}, 'pairs': [[names[i], names[j]]]}, 'witness': w, 'native': nat})
@@ -489,7 +495,7 @@ def main(tier):
         'bounds': 'value template: depth = nesting depth of the two types (+2 for recursive types), arrays <= longest tuple prefix + 1, keys = declared '
                   'keys + 1 fresh, integers unbounded, strings = literals mentioned + unboundedly many fresh; complete for non-recursive types',
         'functions_under_test': ['ToSemType::to_sem_type', 'SemTypeOps::is_subtype', 'SemTypeOps::is_same_type', 'list_inhabited', 'check_mapping_empty'],
-        'outside_claim': ['type pairs not enumerated', 'index signatures whose key domain is not `string`', 'recursive types beyond the unfolding depth', 'undefined/void, formats, template literals, Date/bigint/Map/Set'],
+        'outside_claim': ['type pairs not enumerated', 'index signatures whose key domain is `number` alone (string and string | number are covered)', 'recursive types beyond the unfolding depth', 'undefined/void, formats, template literals, Date/bigint/Map/Set'],
     }
     assumptions = ['the oracle semantics (semval) reads the property text: exact = declared keys only, structural = extra keys allowed',
                    'implementation inputs are enumerated (not solver-quantified); the solver quantifies over values', 'z3 4.8.12']
